@@ -89,6 +89,11 @@ class DefaultsJudge(Judge):
             self.count('refused')
             return
         self.count('accepted')
+        if self.params.get('prop') == 'C01':
+            # accepts exactly the legal specs: a default the documented rule refuses must not compile
+            if obj['compile'] == 'rej':
+                self.violation('illegal_default_accepted', 'illegal %s accepted by the compiler' % what, ctx)
+            return
         # whatever the compiler accepts must be valid for the generated class
         try:
             gen = Generated(specs, api=api)
